@@ -51,7 +51,9 @@ def _chain(desc, F, args):
         if i + 1 < n:
             g.add((cells[i], RDF.rest, cells[i + 1]))
     if d == "cycle":
-        g.add((cells[n - 1], RDF.rest, cells[0]))
+        # the last cell's rdf:rest points back to cell k: k = 0 closes a ring through the head, k > 0 gives a lasso
+        # (a ring that the walk enters but that does not contain the head), k = n - 1 a self-loop
+        g.add((cells[n - 1], RDF.rest, cells[k]))
     elif d == "dangling-rest":
         g.add((cells[n - 1], RDF.rest, BNode("nowhere")))
     elif d != "no-rest-last":
@@ -280,7 +282,7 @@ def obligations(tier, seed):
     obs.append(dict(oid="K/xml-text/len<=%d" % n, family="k-xml-text", desc={}, sig=[("s", "s")], pre=["len(s) <= %d" % n], budget=big))
     for n in ((2, 3) if tier == "quick" else (1, 2, 3, 4)):
         for d in MALFORMED:
-            ats = [n - 1] if d in ("ok", "no-rest-last", "cycle", "dangling-rest") else list(range(n))
+            ats = [n - 1] if d in ("ok", "no-rest-last", "dangling-rest") else list(range(n))
             if d == "no-first-mid":
                 ats = [a for a in ats if a > 0]
             for at in ats:
